@@ -135,3 +135,112 @@ Theorem C02_annotated_writer_on_messages :
   z_out (zrun ng z (combine ops (repeat 0 (length ops)))) = z_out z ++ flat_map (msg_entry ng) ops.
 Proof. exact zrun_messages_only. Qed.
 Print Assumptions C02_annotated_writer_on_messages.
+
+(* ---- second half of C02 for programs WITH WritePreparedMessage: Proofs/WriterEventsC.v ----
+   [crun] is the case format's run (every wop except the raw prepared frame, plus
+   WritePreparedMessage with its shared per-id frame cache); [aop_of] reads a prepared send as
+   AMessage of its creation payload.  The events of the wire are the output of the abstract
+   writer; a message sent compressed carries its deflate stream minus 00 00 ff ff, and for a
+   prepared send that stream is [pstream]: the flate oracle of the send that RENDERED the cached
+   frame for (id, key) -- this send on a cache miss, an earlier send with the same id and key on
+   a hit (C02_prepared_stream, C02_recorded_stream_stable).  [cz_ops] is the program as the
+   annotated abstract writer of WriterEventsZ sees it: each prepared send replaced by
+   [prep_msg p stream] = WMessage ty data ic [] [stream].
+   Hypotheses: [cop_small] (sizes < 2^62), [op_for pay] (PreparedP: an id always stands for the
+   same, valid, creation payload; 4-byte mask keys for the rendering), and, only when compression
+   is negotiated, [czgood] (flate_good + rf_good for the plain ops; for a prepared send: the
+   implicit-close oracle ends with 00 00 ff ff if a compressed writer is current, the Close-time
+   oracle ends with 00 00 ff ff if this send renders a compressed frame).  All three are
+   necessary for the model (WriterEventsC.payload_convention_needed, payload_valid_needed,
+   prep_flate_ok_needed). *)
+Require Import WS.Proofs.PreparedP WS.Proofs.WriterEventsC.
+
+Theorem C02_wire_events_prepared :
+  forall pay c ks ops fs,
+    14 < w_bufsize c -> w_bufsize c < 2^62 ->
+    Forall (fun k => length k = 4%nat) ks -> Forall cop_small ops -> Forall (op_for pay) ops ->
+    (w_negotiated c = false \/ czgood c (init_wst c ks None, []) ops) ->
+    let r := crun c (init_wst c ks None, []) ops in
+    let res := cres (fst r) in
+    let A := arun (w_negotiated c) ast0 (combine (map aop_of ops) res) in
+    let Z := zrun (w_negotiated c) zst0 (combine (cz_ops c (init_wst c ks None, []) [] ops) res) in
+    Forall wf_frame fs -> wire_of (evs (fst (snd r))) = encode_frames fs ->
+    zerase Z = A /\
+    map sent_of_event (events_of fs) = map zwire (z_out Z) /\
+    Forall zstr_ok (z_out Z) /\
+    (a_dead A = false -> a_open A = None -> snd (events_from None fs) = None).
+Proof. exact wire_events_prepared. Qed.
+Print Assumptions C02_wire_events_prepared.
+
+Theorem C02_wire_events_prepared_rel :
+  forall pay c ks ops fs,
+    14 < w_bufsize c -> w_bufsize c < 2^62 ->
+    Forall (fun k => length k = 4%nat) ks -> Forall cop_small ops -> Forall (op_for pay) ops ->
+    (w_negotiated c = false \/ czgood c (init_wst c ks None, []) ops) ->
+    let r := crun c (init_wst c ks None, []) ops in
+    let res := cres (fst r) in
+    let A := arun (w_negotiated c) ast0 (combine (map aop_of ops) res) in
+    let Z := zrun (w_negotiated c) zst0 (combine (cz_ops c (init_wst c ks None, []) [] ops) res) in
+    Forall wf_frame fs -> wire_of (evs (fst (snd r))) = encode_frames fs ->
+    map fst (z_out Z) = a_out A /\
+    Forall2 zrel (z_out Z) (map sent_of_event (events_of fs)).
+Proof. exact wire_events_prepared_rel. Qed.
+Print Assumptions C02_wire_events_prepared_rel.
+
+(* both halves of C02 at once: the wire IS a well-formed frame sequence, carrying these events *)
+Theorem C02_wire_wellformed_and_events_prepared :
+  forall pay c ks ops,
+    14 < w_bufsize c -> w_bufsize c < 2^62 ->
+    Forall (fun k => length k = 4%nat) ks -> Forall cop_small ops -> Forall (op_for pay) ops ->
+    (w_negotiated c = false \/ czgood c (init_wst c ks None, []) ops) ->
+    let r := crun c (init_wst c ks None, []) ops in
+    let res := cres (fst r) in
+    let A := arun (w_negotiated c) ast0 (combine (map aop_of ops) res) in
+    let Z := zrun (w_negotiated c) zst0 (combine (cz_ops c (init_wst c ks None, []) [] ops) res) in
+    exists fs, wire_of (evs (fst (snd r))) = encode_frames fs /\ Forall wf_frame fs /\
+      wf_wire (negb (w_server c)) (w_negotiated c) (map (fun f => (f, true)) fs) = true /\
+      zerase Z = A /\
+      map sent_of_event (events_of fs) = map zwire (z_out Z) /\
+      Forall zstr_ok (z_out Z) /\
+      (a_dead A = false -> a_open A = None -> snd (events_from None fs) = None).
+Proof. exact wire_wellformed_and_events_prepared. Qed.
+Print Assumptions C02_wire_wellformed_and_events_prepared.
+
+Theorem C02_abstract_flags_exact_prepared :
+  forall pay c ks ops,
+    14 < w_bufsize c -> w_bufsize c < 2^62 ->
+    Forall (fun k => length k = 4%nat) ks -> Forall cop_small ops -> Forall (op_for pay) ops ->
+    (w_negotiated c = false \/ czgood c (init_wst c ks None, []) ops) ->
+    let r := crun c (init_wst c ks None, []) ops in
+    let A := arun (w_negotiated c) ast0 (combine (map aop_of ops) (cres (fst r))) in
+    (a_dead A = true <-> werr (fst (snd r)) <> None) /\
+    (a_dead A = false -> (a_open A = None <-> cur (fst (snd r)) = None)) /\
+    (a_dead A = false -> a_comp A = wcomp (fst (snd r))).
+Proof. exact abstract_flags_exact_prepared. Qed.
+Print Assumptions C02_abstract_flags_exact_prepared.
+
+(* what the annotated writer appends for a prepared send, and which stream that is *)
+Theorem C02_annotated_writer_on_prepared :
+  forall ng z p str r, z_dead z = false -> ntrN r ->
+  let z' := zstep ng z (prep_msg p str) r in
+  z_open z' = None /\ z_comp z' = z_comp z /\
+  z_out z' = (z_out z ++ zflush_out z (ps_ic p)) ++
+             (if r =? 0 then [(mk_sent (ps_ty p) (ng && z_comp z && is_data (ps_ty p)) (ps_data p), str)] else []) /\
+  z_dead z' = zflush_closes z || ((r =? 0) && (ps_ty p =? 8)).
+Proof. exact zstep_prepared. Qed.
+Print Assumptions C02_annotated_writer_on_prepared.
+
+Theorem C02_prepared_stream :
+  forall c st g p,
+  (prep_miss c st p = true -> pstream c st g p = concat (ps_wc p) ++ concat (ps_cc p)) /\
+  (prep_miss c st p = false ->
+   pstream c st g p = match gget (ps_id p) (prep_key c (fst st) p) g with Some str => str | None => [] end).
+Proof. intros c st g p. split; [apply pstream_miss|apply pstream_hit]. Qed.
+Print Assumptions C02_prepared_stream.
+
+Theorem C02_recorded_stream_stable :
+  forall c ops st g, GS (snd st) g ->
+  GS (snd (snd (crun c st ops))) (cz_ghost c st g ops) /\
+  forall id k str, gget id k g = Some str -> gget id k (cz_ghost c st g ops) = Some str.
+Proof. exact crun_GS. Qed.
+Print Assumptions C02_recorded_stream_stable.
